@@ -88,6 +88,7 @@ def incompatible(path_conds, vatoms):
 
 def run(rep, tier):
     cx = Ctx(rep, "std")
+    rep.where_by_opcode = cx.opcode_where(cx.roles.interpreter())
     vm = vmodel.VerifierModel(cx)
     im = imodel.InterpModel(cx)
     if not (vm.ok and im.ok):
